@@ -1052,7 +1052,10 @@ def gen_c11(seed, n, start_id=0):
 # ---------------------------------------------------------------------------------------------
 # C18: programs over the ordered key-value contract
 
-KV_PREFIXES = [b"p", b"p\xff", b"\xff", b"\xff\xff", b"p\x00", b"a\xff\xff", b"\x00", b"pq"]
+KV_PREFIXES = [b"p", b"p\xff", b"\xff", b"\xff\xff", b"p\x00", b"a\xff\xff", b"\x00", b"pq",
+               # binary prefixes whose tail is not valid UTF-8 (a lone continuation byte, a dangling lead byte, 0xFE,
+               # the replacement character itself): byte-wise helpers that go through strings mistreat them
+               b"p\x80", b"\xc3", b"p\xfe", b"\xef\xbf\xbd", b"a\xe2\x82", b"\x80\x80", b"p\xff\xfe", b"q\xbf\xff"]
 
 
 def _incr(bz):
